@@ -262,4 +262,149 @@ theorem metaFile_inj (a b : Name) (ha : a.all safeChar = true) (hb : b.all safeC
     (h : metaFile a = metaFile b) : a = b :=
   sanitize_inj a b ha hb (List.append_cancel_right h)
 
+/-! ### names without ':' (all names `create_knowledge_graph` accepts): discovery and prefix tests are exact -/
+
+theorem kgOf_shardName : ∀ (k rel : Name), k.contains ':' = false → kgOf (shardName k rel) = k := by
+  intro k
+  induction k with
+  | nil => intro rel _; simp [kgOf, shardName]
+  | cons c k ih =>
+    intro rel h
+    simp only [List.contains_cons, Bool.or_eq_false_iff] at h
+    have hc : (c != ':') = true := by
+      have := h.1
+      simp only [beq_eq_false_iff_ne, ne_eq] at this
+      simp only [bne_iff_ne, ne_eq]
+      exact fun e => this e.symm
+    have := ih rel h.2
+    simp only [kgOf, shardName, List.cons_append, List.takeWhile_cons, hc, if_true] at this ⊢
+    rw [this]
+
+theorem hasPrefix_shardName : ∀ (k' k rel : Name), k'.contains ':' = false → k.contains ':' = false →
+    hasPrefix k' (shardName k rel) = true → k' = k := by
+  intro k'
+  induction k' with
+  | nil =>
+    intro k rel _ hk h
+    cases k with
+    | nil => rfl
+    | cons c k =>
+      simp only [hasPrefix, shardName, List.nil_append, List.cons_append, List.isPrefixOf, Bool.and_eq_true, beq_iff_eq] at h
+      simp only [List.contains_cons, Bool.or_eq_false_iff, beq_eq_false_iff_ne, ne_eq] at hk
+      exact absurd h.1 hk.1
+  | cons c' k' ih =>
+    intro k rel hk' hk h
+    cases k with
+    | nil =>
+      simp only [hasPrefix, shardName, List.nil_append, List.cons_append, List.isPrefixOf, Bool.and_eq_true, beq_iff_eq] at h
+      simp only [List.contains_cons, Bool.or_eq_false_iff, beq_eq_false_iff_ne, ne_eq] at hk'
+      exact absurd h.1.symm hk'.1
+    | cons c k =>
+      simp only [hasPrefix, shardName, List.cons_append, List.isPrefixOf, Bool.and_eq_true, beq_iff_eq] at h
+      simp only [List.contains_cons, Bool.or_eq_false_iff] at hk' hk
+      have := ih k rel hk'.2 hk.2 (by simpa [hasPrefix, shardName] using h.2)
+      rw [h.1, this]
+
+theorem validName_no_colon (n : Name) (h : validName n = true) : n.contains ':' = false := by
+  unfold validName at h
+  simp only [Bool.and_eq_true, Bool.not_eq_true', decide_eq_true_eq] at h
+  exact h.1.1.1.2
+
+/-! ### sequential histories never persist a write for a KG that is not in the map -/
+
+/-- single thread; nothing persisted for a missing KG so far; a thread holding the tombstone guard
+    (about to persist) addresses a KG that is in the map -/
+def Good (st : State) : Prop :=
+  st.n = 1 ∧ st.persistedForMissing = false ∧
+  (match (st.threads 0).pc, (st.threads 0).todo with
+    | .i2, .ins kg _ _ :: _ => (lookup kg st.kgs).isSome
+    | .e2, .del kg _ _ :: _ => (lookup kg st.kgs).isSome
+    | .i2, _ => false
+    | .e2, _ => false
+    | _, _ => true) = true
+
+theorem restart_flag (st : State) : (restart st).persistedForMissing = st.persistedForMissing := by
+  unfold restart
+  simp only
+  have hf : ∀ (l : List Name) (s : State), (l.foldl flushShard s).persistedForMissing = s.persistedForMissing := by
+    intro l; induction l with
+    | nil => intro s; rfl
+    | cons a l ih => intro s; simp only [List.foldl_cons]; rw [ih]; unfold flushShard; split; rfl; split <;> rfl
+  have hw : ∀ (l : List (Name × Upd)) (s : State),
+      (l.foldl (fun s e => let sh := (lookup e.1 s.mem).getD {}; { s with mem := put e.1 { sh with buffer := sh.buffer ++ [e.2] } s.mem }) s).persistedForMissing = s.persistedForMissing := by
+    intro l; induction l with
+    | nil => intro s; rfl
+    | cons a l ih => intro s; simp only [List.foldl_cons]; rw [ih]
+  split <;> simp only [hf, hw]
+
+theorem restart_n (st : State) : (restart st).n = st.n := by
+  unfold restart
+  simp only
+  have hf : ∀ (l : List Name) (s : State), (l.foldl flushShard s).n = s.n := by
+    intro l; induction l with
+    | nil => intro s; rfl
+    | cons a l ih => intro s; simp only [List.foldl_cons]; rw [ih]; unfold flushShard; split; rfl; split <;> rfl
+  have hw : ∀ (l : List (Name × Upd)) (s : State),
+      (l.foldl (fun s e => let sh := (lookup e.1 s.mem).getD {}; { s with mem := put e.1 { sh with buffer := sh.buffer ++ [e.2] } s.mem }) s).n = s.n := by
+    intro l; induction l with
+    | nil => intro s; rfl
+    | cons a l ih => intro s; simp only [List.foldl_cons]; rw [ih]
+  split <;> simp only [hf, hw]
+
+theorem foldl_flush_flag (l : List Name) : ∀ s : State, (l.foldl flushShard s).persistedForMissing = s.persistedForMissing ∧ (l.foldl flushShard s).n = s.n := by
+  induction l with
+  | nil => intro s; exact ⟨rfl, rfl⟩
+  | cons a l ih =>
+    intro s; simp only [List.foldl_cons]
+    have h1 : (flushShard s a).persistedForMissing = s.persistedForMissing ∧ (flushShard s a).n = s.n := by
+      unfold flushShard; split; exact ⟨rfl, rfl⟩; split <;> exact ⟨rfl, rfl⟩
+    exact ⟨(ih _).1.trans h1.1, (ih _).2.trans h1.2⟩
+
+theorem foldl_delete_flag (l : List Name) : ∀ s : State, (l.foldl deleteShard s).persistedForMissing = s.persistedForMissing ∧ (l.foldl deleteShard s).n = s.n := by
+  induction l with
+  | nil => intro s; exact ⟨rfl, rfl⟩
+  | cons a l ih => intro s; simp only [List.foldl_cons]; exact ⟨(ih _).1, (ih _).2⟩
+
+theorem ensure_append_flag (st : State) (s : Name) (u : Upd) :
+    (appendUpd (ensureShard st s) s u).n = st.n ∧ (appendUpd (ensureShard st s) s u).kgs = st.kgs := by
+  unfold appendUpd ensureShard; split <;> exact ⟨rfl, rfl⟩
+
+theorem step_good {st st' : State} (h : Good st) (hs : step st 0 = .ok st') : Good st' := by
+  obtain ⟨hn, hf, hg⟩ := h
+  have htn : ¬ 0 ≥ st.n := by rw [hn]; decide
+  cases htodo : (st.threads 0).todo with
+  | nil => simp [step, htn, htodo] at hs
+  | cons op rest =>
+    rw [htodo] at hg
+    cases op <;> cases hpc : (st.threads 0).pc <;> rw [hpc] at hg <;>
+      simp only [step, htn, htodo, hpc, if_false] at hs <;>
+      (repeat' split at hs) <;> (try cases hs) <;>
+      (try (simp at hg)) <;>
+      (first
+        | (refine ⟨by simp [hn, (foldl_flush_flag _ _).2, (foldl_delete_flag _ _).2, restart_n, (ensure_append_flag _ _ _).1], ?_, ?_⟩
+           · simp [hf, (foldl_flush_flag _ _).1, (foldl_delete_flag _ _).1, restart_flag, hg]
+           · simp [setThread, Thread.finish, htodo]
+             try (rename_i hsome; revert hsome; cases lookup _ st.kgs <;> simp)))
+
+theorem good_init (ops : List Op) : Good (init [ops]) := by
+  refine ⟨rfl, rfl, ?_⟩
+  simp [init, fresh]
+
+theorem lastState_good : ∀ (sched : List Tid) (st : State), Good st → Good (lastState st sched) := by
+  intro sched
+  induction sched with
+  | nil => intro st h; exact h
+  | cons t ts ih =>
+    intro st h
+    by_cases ht : t = 0
+    · subst ht
+      cases hs : step st 0 with
+      | ok st' => simp only [lastState, hs]; exact ih st' (step_good h hs)
+      | skip => simp only [lastState, hs]; exact ih st h
+      | blocked => simp only [lastState, hs]; exact h
+    · have : step st t = .skip := by
+        have : t ≥ st.n := by rw [h.1]; exact Nat.pos_of_ne_zero ht
+        simp [step, this]
+      simp only [lastState, this]; exact ih st h
+
 end ILV.KStep
